@@ -35,8 +35,8 @@ META = {
                   "TensorFlow is not installed; sqrt_matrix_sparse is only driven on well-conditioned positive-definite matrices.",
     "shards": {"quick": 2, "thorough": 16},
     "budget_s": {"quick": 100, "thorough": 300},
-    "min_evals": {"quick": 3000, "thorough": 60000},
-    "min_nontrivial": {"quick": 200, "thorough": 4000},
+    "min_evals": {"quick": 1500, "thorough": 15000},
+    "min_nontrivial": {"quick": 150, "thorough": 1500},
     "deciding": ["qinfo.contract", "qinfo.entropy", "qinfo.pair", "qinfo.expand", "qinfo.misc"],
     "rule": "case = (family, interface, state kind(s), number of wires, batch size, index subset/order, base, c_dtype); distinct = distinct "
             "content fingerprint of the generated arrays and arguments; non-trivial = >= 2 wires and (a proper subset / permuted order / "
